@@ -50,6 +50,7 @@ def register(R):
 
     register_uploader_filters(R)
     register_ranged_downloader(R)
+    register_legacy_upload(R)
 
     # ------------------------------------------------------------------ download_file: temp + rename / remove
     R.contract(f'{S3T}._download_file', params=dict(bucket=ExtT('str'), key=ExtT('str'), filename=Any, object_size=Int,
@@ -172,6 +173,7 @@ def register(R):
                         local_types={'last_exception': OptT(ExtT('exception')), 'current_index': Int}),
                1: LoopSpec(invariant=inner_inv, iteration_checks=inner_iteration)},
     )
+    register_legacy_front(R)
 
 
 def legacy_const(eng, name):
@@ -192,6 +194,275 @@ def register_uploader_filters(R):
                     lambda c_eng, st, loc: c_eng.class_attr(c_eng.repo.cls(MPU), 'UPLOAD_PART_ARGS', st)[0].val)
     filter_contract(R, f'{MPU}._extra_args_for', 'extra_args', 'filtered_args', lambda c_eng, st, loc: loc('allowed'),
                     extra_params=dict(allowed=SetT('Str')), optional=True)
+
+
+def register_legacy_upload(R):
+    """Legacy multipart part loop: MultipartUploader._upload_parts / _upload_one_part (C01, C14, C15)."""
+    from pyvc.contracts import RecordT
+    from pyvc.values import to_int_term
+    from .c05 import resp_get
+    OSU = f'{L}:OSUtils'
+    R.contract(f'{OSU}.get_file_size', params=dict(filename=ExtT('str')), returns=Int,
+               ensures=lambda c: {'nonneg': c.result >= 0, 'exactly_representable_as_float (A-IEEE domain: below 2**53 bytes)': c.result < TWO53},
+               raise_when={'OSError': lambda c: None})
+    # assumed: the chunk reader is a context manager over file[start : start+size] (legacy ReadFileChunk, not verified here)
+    R.contract(f'{OSU}.open_file_chunk_reader', params=dict(filename=ExtT('str'), start_byte=Int, size=Int, callback=Any),
+               returns=ExtT('legacy_chunk'), raise_when={'OSError': lambda c: None})
+    R.external('legacy_chunk', __enter__=ExtSpec(returns=lambda eng, st, recv, a, k: recv, pure=True), __exit__=ExtSpec(raises=()))
+
+    def one_part_checks(c):
+        tr = c.trace
+        op = calls(tr, 'OSUtils.open_file_chunk_reader')
+        up = exts(tr, 'client.upload_part')
+        okk = len(op) == 1 and len(up) == 1 and up[0].kwargs.get('Body') is op[0].result \
+            and up[0].kwargs.get('Bucket') is c.a_bucket and up[0].kwargs.get('Key') is c.a_key \
+            and up[0].kwargs.get('UploadId') is c.a_upload_id and up[0].kwargs.get('PartNumber') is c.a_part_number \
+            and set(k for k in up[0].kwargs if k != '**') == {'Bucket', 'Key', 'UploadId', 'PartNumber', 'Body'}
+        out = {'one_upload_part_for_this_part_number_with_a_body_opened_for_it': (B(bool(okk)), ['C01', 'C05'])}
+        if len(op) == 1:
+            env = op[0].extra['env']
+            out['body_window_is_part_size_times_number_minus_one'] = (z3.And(
+                B(env['filename'] is c.a_filename), to_int_term(env['start_byte']) == c.a_part_size * (c.a_part_number - 1),
+                to_int_term(env['size']) == c.a_part_size), ['C01', 'C14'])
+        if len(up) == 1:
+            out['part_gets_the_given_extra_args'] = (B(splat_has(up[0], c.old.st, c.a_extra_args)), ['C15'])
+            res = c.new.obj(c.result).items if isinstance(c.result, Ref) and c.new.obj(c.result).kind == 'dict' else {}
+            out['returns_the_etag_s3_gave_for_this_part_and_its_number'] = (B(
+                set(res) == {'ETag', 'PartNumber'} and res['PartNumber'] is c.a_part_number and isinstance(res['ETag'], Opaque)
+                and z3.eq(res['ETag'].term, resp_get(up[0].result.term, z3.StringVal('ETag')))), ['C01'])
+        return out
+
+    def one_part_result(c, st):
+        from pyvc.values import HObj
+        return st.alloc(HObj('dict', items={'ETag': Opaque(z3.Function('etag_of_part', z3.IntSort(), U)(to_int_term(c.a_part_number)), kind='etag'),
+                                            'PartNumber': c.a_part_number}))
+
+    R.contract(
+        f'{MPU}._upload_one_part', props=['C01', 'C05', 'C14', 'C15'],
+        params=dict(filename=ExtT('str'), bucket=ExtT('str'), key=ExtT('str'), upload_id=ExtT('upload_id'), part_size=Int,
+                    extra_args=EXTRA, callback=Any, part_number=Int),
+        requires=lambda c: [c.a_part_size > 0, c.a_part_number >= 1],
+        checks=one_part_checks, effects=one_part_result,
+        raises={'Exception': lambda c: {}}, raise_when={'Exception': lambda c: None},
+    )
+
+    PARTS_T = ListOfT(RecordT(ETag=ExtT('etag'), PartNumber=Int), name='parts')
+
+    def parts_view(st, v):
+        h = st.obj(v)
+        if h.kind == 'list':
+            if h.items:
+                raise ValueError('non-empty concrete parts list')
+            return z3.IntVal(0), (lambda i: z3.IntVal(0))
+        return to_int_term(h.meta['len']), (lambda i, a=h.meta['arrs']['PartNumber']: z3.Select(a, i))
+
+    jj = z3.Int('jj_parts')
+
+    def parts_inv(l):
+        n, num = parts_view(l.st, l.local('parts'))
+        idx = to_int_term(l.index)
+        return {'one_part_per_input_so_far': n == idx,
+                'parts_are_numbered_1_to_n_in_list_order': z3.ForAll([jj], z3.Implies(z3.And(jj >= 0, jj < n), num(jj) == jj + 1))}
+
+    def parts_iteration(l0, l1, evs):
+        one = [e for e in evs if e.kind == 'call' and e.name.endswith('_upload_one_part')]
+        okk = len(one) == 1
+        out = {'exactly_one_part_uploaded_per_iteration': (B(okk), ['C01', 'C05'])}
+        if okk:
+            env = one[0].extra['env']
+            o = l1.st.env
+            out['part_number_is_position_plus_one'] = (to_int_term(env['part_number']) == to_int_term(l0.index) + 1, ['C01', 'C14'])
+            out['part_built_from_this_uploads_arguments'] = (B(
+                env['filename'] is o['filename'] and env['bucket'] is o['bucket'] and env['key'] is o['key'] and env['upload_id'] is o['upload_id']
+                and env['part_size'] is o['part_size'] and env['extra_args'] is o['upload_parts_extra_args'] and env['callback'] is o['callback']), ['C01', 'C15'])
+        return out
+
+    def up_parts_checks(c):
+        tr = c.trace
+        n, num = parts_view(c.new.st, c.result)
+        gs = calls(tr, 'OSUtils.get_file_size')
+        flt = calls(tr, '_extra_upload_part_args')
+        cfg_ps = c.old.f(c.oldf('_config'), 'multipart_chunksize')
+        out = {'parts_are_numbered_1_to_n_in_list_order': (z3.ForAll([jj], z3.Implies(z3.And(jj >= 0, jj < n), num(jj) == jj + 1)), ['C01']),
+               'part_args_are_the_filtered_extra_args': (B(len(flt) == 1 and flt[0].extra['env']['extra_args'] is c.a_extra_args
+                                                           and c.new.st.env.get('upload_parts_extra_args') is flt[0].result), ['C15'])}
+        if len(gs) == 1:
+            out['number_of_parts_is_ceil_size_over_chunksize'] = (is_ceil_div(n, gs[0].result, cfg_ps), ['C01', 'C14'])
+        else:
+            out['file_size_read_once'] = (B(False), ['C14'])
+        return out
+
+    def up_parts_setup(eng, st, args, self_val):
+        cfg = st.obj(st.obj(self_val).fields['_config'])
+        st.assume(cfg.fields['multipart_chunksize'] < TWO53)
+
+    R.contract(
+        f'{MPU}._upload_parts', props=['C01', 'C05', 'C14', 'C15'],
+        params=dict(upload_id=ExtT('upload_id'), filename=ExtT('str'), bucket=ExtT('str'), key=ExtT('str'), callback=Any, extra_args=EXTRA),
+        setup=up_parts_setup, checks=up_parts_checks, returns=PARTS_T,
+        raises={'Exception': lambda c: {}}, raise_when={'Exception': lambda c: None},
+        loops={0: LoopSpec(invariant=parts_inv, iteration_checks=parts_iteration, local_types={'parts': PARTS_T})},
+    )
+    R.external('legacy_executor', map=ExtSpec(returns=lambda eng, st, recv, a, k: ('mapiter', a[0], a[1]), pure=True))
+
+
+def register_legacy_front(R):
+    """S3Transfer.upload_file / _put_object / _multipart_upload / _get_object / _do_get_object / _object_size."""
+    from pyvc.values import to_int_term
+    OSU = f'{L}:OSUtils'
+    R.external('client_meta', **{'.events': ExtSpec(returns=ExtT('client_events'), pure=True)})
+    R.external('client', **{'.meta': ExtSpec(returns=ExtT('client_meta'), pure=True)})
+    R.external('client_events', register_first=ExtSpec(raises=()), register_last=ExtSpec(raises=()), register=ExtSpec(raises=()))
+    R.mark_inline(f'{MPU}.__init__')
+    SIMPLE = dict(filename=ExtT('str'), bucket=ExtT('str'), key=ExtT('str'), callback=Any, extra_args=EXTRA)
+
+    # ---- _put_object: one PutObject whose body is the whole file, with the user's arguments
+    def put_checks(c):
+        op = calls(c.trace, 'OSUtils.open_file_chunk_reader')
+        gs = calls(c.trace, 'OSUtils.get_file_size')
+        po = exts(c.trace, 'client.put_object')
+        okk = len(op) == 1 and len(po) == 1 and len(gs) == 1 and po[0].kwargs.get('Body') is op[0].result \
+            and po[0].kwargs.get('Bucket') is c.a_bucket and po[0].kwargs.get('Key') is c.a_key \
+            and set(k for k in po[0].kwargs if k != '**') == {'Bucket', 'Key', 'Body'}
+        out = {'one_put_object_with_a_body_opened_on_the_file': (B(bool(okk)), ['C01'])}
+        if okk:
+            env = op[0].extra['env']
+            out['body_is_the_whole_file'] = (z3.And(B(env['filename'] is c.a_filename and gs[0].extra['env']['filename'] is c.a_filename),
+                                                    to_int_term(env['start_byte']) == 0, to_int_term(env['size']) == gs[0].result), ['C01'])
+            out['users_extra_args_reach_put_object'] = (B(splat_has(po[0], c.old.st, c.a_extra_args)), ['C15'])
+        return out
+
+    R.contract(f'{S3T}._put_object', props=['C01', 'C15'], params=dict(SIMPLE), checks=put_checks,
+               raises={'Exception': lambda c: {}}, raise_when={'Exception': lambda c: None})
+
+    # ---- _multipart_upload: hands the same arguments to a MultipartUploader built on this transfer's client / config / osutil
+    def mpu_checks(c):
+        uf = calls(c.trace, 'MultipartUploader.upload_file')
+        okk = len(uf) == 1
+        out = {'one_multipart_upload': (B(okk), ['C01', 'C05'])}
+        if okk:
+            env = uf[0].extra['env']
+            up = c.new.obj(uf[0].recv) if isinstance(uf[0].recv, Ref) else None
+            out['same_arguments_and_collaborators'] = (B(
+                env['filename'] is c.a_filename and env['bucket'] is c.a_bucket and env['key'] is c.a_key and env['callback'] is c.a_callback
+                and env['extra_args'] is c.a_extra_args and up is not None and up.fields.get('_client') is c.oldf('_client')
+                and up.fields.get('_config') is c.oldf('_config') and up.fields.get('_os') is c.oldf('_osutil')), ['C01', 'C15'])
+        return out
+
+    R.contract(f'{S3T}._multipart_upload', props=['C01', 'C05', 'C15'], params=dict(SIMPLE), checks=mpu_checks,
+               raises={'Exception': lambda c: {}}, raise_when={'Exception': lambda c: None})
+
+    # ---- upload_file: validation first, multipart exactly when file size >= threshold, arguments passed on
+    def uf_checks(c):
+        tr = c.trace
+        val = calls(tr, 'S3Transfer._validate_all_known_args')
+        gs = calls(tr, 'OSUtils.get_file_size')
+        mp, po = calls(tr, 'S3Transfer._multipart_upload'), calls(tr, 'S3Transfer._put_object')
+        first_req = min([index_of(tr, e) for e in mp + po] or [10 ** 9])
+        out = {
+            'arguments_validated_against_the_upload_allow_list_first': (B(
+                len(val) == 1 and index_of(tr, val[0]) < first_req
+                and c.engine.same_const_list(val[0].extra['env']['allowed'], S3T, 'ALLOWED_UPLOAD_ARGS', c.new.st)), ['C15']),
+            'exactly_one_mode': (B(len(mp) + len(po) == 1 and len(gs) == 1), ['C14', 'C01']),
+        }
+        if len(mp) + len(po) == 1 and len(gs) == 1:
+            thr = c.old.f(c.oldf('_config'), 'multipart_threshold')
+            out['multipart_iff_file_size_at_least_threshold'] = ((gs[0].result >= thr) if mp else (gs[0].result < thr), ['C14'])
+            env = (mp + po)[0].extra['env']
+            out['arguments_passed_on'] = (B(
+                env['filename'] is c.a_filename and env['bucket'] is c.a_bucket and env['key'] is c.a_key and env['callback'] is c.a_callback
+                and _same_args(c, env['extra_args'])), ['C15', 'C01'])
+        return out
+
+    R.contract(f'{S3T}.upload_file', props=['C01', 'C14', 'C15'],
+               params=dict(filename=ExtT('str'), bucket=ExtT('str'), key=ExtT('str'), callback=Any, extra_args=OptT(EXTRA)),
+               checks=uf_checks, raises={'Exception': lambda c: {}}, top_level=True)
+
+    # ---- _object_size: HeadObject with the user's arguments, size = ContentLength
+    def os_checks(c):
+        ho = exts(c.trace, 'client.head_object')
+        okk = len(ho) == 1 and ho[0].kwargs.get('Bucket') is c.a_bucket and ho[0].kwargs.get('Key') is c.a_key \
+            and set(k for k in ho[0].kwargs if k != '**') == {'Bucket', 'Key'}
+        return {'one_head_object_with_the_users_extra_args': (B(bool(okk) and splat_has(ho[0], c.old.st, c.a_extra_args)), ['C15'])}
+
+    cos = R.contracts[f'{S3T}._object_size']
+    cos.checks, cos.raises, cos.props = os_checks, {'Exception': lambda c: {}}, ('C15',)
+
+    # ---- _do_get_object: one GetObject with the user's arguments; EVERY byte of the body, in order, into the file
+    def dgo_inv(l):
+        keys = [k for k in l.st.ghost if isinstance(k, tuple) and k[0] == 'body']
+        if not keys:
+            sb = l.st.env['streaming_body']
+            R.body_state(l.st, l.st.obj(sb).fields['_stream'])
+            if l.pre is not None:
+                k0 = [k for k in l.st.ghost if isinstance(k, tuple) and k[0] == 'body'][-1]
+                l.pre.ghost.setdefault(k0, dict(l.st.ghost[k0]))
+            keys = [k for k in l.st.ghost if isinstance(k, tuple) and k[0] == 'body']
+        g = l.st.ghost[keys[-1]]
+        return {'written_so_far_is_the_body_prefix_delivered': to_int_term(l.st.ghost.get('legacy_written', z3.IntVal(0))) == g['pos']}
+
+    def dgo_iteration(l0, l1, evs):
+        wr = [e for e in evs if e.kind == 'ext' and e.name == 'legacy_dest.write']
+        keys = [k for k in l0.st.ghost if isinstance(k, tuple) and k[0] == 'body']
+        g0, g1 = l0.st.ghost[keys[-1]], l1.st.ghost[keys[-1]]
+        out = {'one_write_per_chunk': (B(len(wr) == 1), ['C02'])}
+        if len(wr) == 1:
+            d = wr[0].args[0]
+            out['chunk_written_is_the_next_body_bytes'] = (z3.And(to_int_term(d.lo) == g0['start'] + g0['pos'], to_int_term(d.hi) == g1['start'] + g1['pos']), ['C02'])
+        return out
+
+    def dest_write_effect(eng, st, recv, args, kwargs, result):
+        d = args[0]
+        st.ghost['legacy_written'] = z3.simplify(to_int_term(st.ghost.get('legacy_written', z3.IntVal(0))) + to_int_term(d.hi) - to_int_term(d.lo))
+
+    R.external('legacy_dest', __enter__=ExtSpec(returns=lambda eng, st, recv, a, k: recv, pure=True), __exit__=ExtSpec(raises=('OSError',)),
+               write=ExtSpec(raises=('OSError',), effect=dest_write_effect), seek=ExtSpec(raises=('OSError',)))
+    R.contract(f'{OSU}.open', params=dict(filename=ExtT('str'), mode=Str), returns=ExtT('legacy_dest'), raise_when={'OSError': lambda c: None})
+
+    def dgo_setup(eng, st, args, self_val):
+        st.ghost['get_object_start'] = z3.IntVal(0)
+        st.ghost['legacy_written'] = z3.IntVal(0)
+
+    def dgo_checks(c):
+        go = exts(c.trace, 'client.get_object')
+        op = calls(c.trace, 'OSUtils.open')
+        keys = [k for k in c.new.st.ghost if isinstance(k, tuple) and k[0] == 'body']
+        g = c.new.st.ghost[keys[-1]] if keys else None
+        okk = len(go) == 1 and go[0].kwargs.get('Bucket') is c.a_bucket and go[0].kwargs.get('Key') is c.a_key \
+            and set(k for k in go[0].kwargs if k != '**') == {'Bucket', 'Key'}
+        return {
+            'one_get_object_with_the_users_extra_args': (B(bool(okk) and splat_has(go[0], c.old.st, c.a_extra_args)), ['C15', 'C02']),
+            'file_opened_for_writing_from_scratch': (B(len(op) == 1 and op[0].extra['env']['filename'] is c.a_filename and op[0].extra['env']['mode'] == 'wb'), ['C02', 'C06']),
+            'returns_only_after_the_whole_body_was_written': ((z3.And(g['pos'] == g['len'], to_int_term(c.new.st.ghost['legacy_written']) == g['len'])
+                                                               if g is not None else B(False)), ['C02', 'C03']),
+        }
+
+    R.contract(f'{S3T}._do_get_object', props=['C02', 'C03', 'C06', 'C15'],
+               params=dict(bucket=ExtT('str'), key=ExtT('str'), filename=ExtT('str'), extra_args=EXTRA, callback=OptT(ExtT('legacy_cb'))),
+               setup=dgo_setup, checks=dgo_checks, raises={'Exception': lambda c: {}},
+               raise_when={'Exception': lambda c: None, 'socket.timeout': lambda c: None, 'OSError': lambda c: None},
+               loops={0: LoopSpec(invariant=dgo_inv, iteration_checks=dgo_iteration)})
+
+    # ---- _get_object: at most num_download_attempts attempts, each a full _do_get_object with the same arguments
+    def go_iteration(l0, l1, evs):
+        d = [e for e in evs if e.kind == 'call' and e.name.endswith('_do_get_object')]
+        return {'one_attempt_per_iteration': (B(len(d) == 1), ['C03']), **R.retry_clauses(l1.engine, evs, ['C03'])}
+
+    def go_checks(c):
+        d = [e for e in flat(c.trace) if e.kind == 'call' and e.name.endswith('_do_get_object')]
+        last = d[-1] if d else None
+        return {'returns_after_an_attempt_that_completed': (B(last is not None and last.extra.get('raised') is None), ['C02', 'C03']),
+                'every_attempt_uses_the_users_arguments': (B(all(
+                    e.extra['env']['bucket'] is c.a_bucket and e.extra['env']['key'] is c.a_key and e.extra['env']['filename'] is c.a_filename
+                    and e.extra['env']['extra_args'] is c.a_extra_args and e.extra['env']['callback'] is c.a_callback for e in d)), ['C15', 'C02'])}
+
+    cgo = R.contracts[f'{S3T}._get_object']
+    cgo.params = dict(bucket=ExtT('str'), key=ExtT('str'), filename=ExtT('str'), extra_args=EXTRA, callback=OptT(ExtT('legacy_cb')))
+    cgo.props, cgo.checks = ('C02', 'C03', 'C15'), go_checks
+    cgo.setup = lambda eng, st, args, self_val: st.assume(st.obj(st.obj(self_val).fields['_config']).fields['num_download_attempts'] > 0)
+    cgo.raises = {'s3transfer.exceptions:RetriesExceededError': lambda c: {'only_after_the_attempt_budget_is_used_up': (B(
+        len([e for e in c.trace if e.kind == 'loop']) == 1), ['C03'])}, 'Exception': lambda c: {}}
+    cgo.loops = {0: LoopSpec(invariant=lambda l: {}, iteration_checks=go_iteration, local_types={'last_exception': OptT(ExtT('exception'))})}
 
 
 def register_ranged_downloader(R):
@@ -242,7 +513,8 @@ def register_ranged_downloader(R):
 
 LEGACY_C06 = [f'{S3T}.download_file', f'{MPD}.download_file']
 LEGACY_C14 = [f'{S3T}._download_file']
-LEGACY_C15 = [f'{S3T}.download_file', f'{S3T}._download_file', f'{MPD}._download_range', f'{MPU}.upload_file',
+LEGACY_C15 = [f'{S3T}.upload_file', f'{S3T}.download_file', f'{S3T}._download_file', f'{MPD}._download_range', f'{MPU}.upload_file',
               f'{MPU}._extra_upload_part_args', f'{MPU}._extra_args_for']
+LEGACY_C01 = [f'{MPU}._upload_parts', f'{MPU}._upload_one_part']
 LEGACY_C02 = [f'{MPD}._download_range']
 LEGACY_C03 = [f'{MPD}._download_range']
